@@ -144,4 +144,30 @@ theorem futureWindow_ne_nil {α} (L S : Int) (dF : List Int) (fut : List α)
   rw [this] at hw
   simp at hw
 
+/-! ### index-list facts used by the lifted theorems -/
+
+theorem filterMap_id_map (g : Rat → Rat) (x : List (Option Rat)) :
+    (x.map (Option.map g)).filterMap id = (x.filterMap id).map g := by
+  rw [List.filterMap_map, List.map_filterMap]
+  rfl
+
+theorem take_map_some (x : List Rat) (idx : List Nat) : (take (x.map some) idx).filterMap id = take x idx := by
+  unfold take
+  rw [List.filterMap_filterMap]
+  congr 1
+  funext i
+  simp [List.getElem?_map]
+  cases x[i]? <;> rfl
+
+theorem take_length_eq {α β} (x : List α) (y : List β) (idx : List Nat) (h : x.length = y.length)
+    (hv : ∀ j ∈ idx, j < x.length) : (take x idx).length = (take y idx).length := by
+  rw [Lemmas.Pointwise.take_length x idx hv, Lemmas.Pointwise.take_length y idx (fun j hj => h ▸ hv j hj)]
+
+theorem monthIdx_valid (ms : List Int) (m : Int) : ∀ j ∈ monthIdx ms m, j < ms.length := by
+  intro j hj
+  unfold monthIdx Py.whereTrue at hj
+  have := (List.mem_filter.mp hj).1
+  simpa using this
+
+
 end Lemmas.C02
